@@ -249,7 +249,27 @@ def foreign_state(ctx, rng, chart):
     and c:order were permuted (re-ordered in 'Select Data'), the 1904 date system"""
     cs = chart._chartSpace
     sers = cs.xpath("//c:ser")
-    what = rng.choice(["permute", "permute", "date1904", "both", "combo", "combo", "docorder", "emptyplot"])
+    what = rng.choice(["permute", "permute", "date1904", "both", "combo", "combo", "docorder", "emptyplot", "nested", "nested"])
+    if what == "nested":
+        # what PowerPoint writes into a series and the library never does: data labels carrying an extension list - an
+        # EARLIER child of c:ser that holds, deeper down, an element named like a LATER sibling (c:extLst)
+        from pptx.oxml import parse_xml
+        done = 0
+        for ser in sers[:2]:
+            if ser.xpath("./c:dLbls"):
+                continue
+            later = ser.xpath("./c:trendline | ./c:errBars | ./c:cat | ./c:val | ./c:xVal | ./c:yVal | ./c:bubbleSize | ./c:bubble3D | ./c:smooth | ./c:shape | ./c:extLst")
+            dl = parse_xml('<c:dLbls xmlns:c="http://schemas.openxmlformats.org/drawingml/2006/chart"><c:showLegendKey val="0"/><c:showVal val="1"/>'
+                           '<c:showCatName val="0"/><c:showSerName val="0"/><c:showPercent val="0"/><c:showBubbleSize val="0"/>'
+                           '<c:extLst><c:ext uri="{CE6537A1-D6FC-4f65-9D91-7224C49458BB}"><x:y xmlns:x="urn:x-foreign"/></c:ext></c:extLst></c:dLbls>')
+            if later:
+                later[0].addprevious(dl)
+            else:
+                ser.append(dl)
+            done += 1
+        if done:
+            ctx.count("foreign-state-series-with-nested-successor-names")
+        return
     if len(cs.xpath("//c:plotArea/c:barChart")) == 1 and len(sers) >= 2 and rng.random() < 0.6:
         what = "combo"      # the only charts a combination can be made of: use them
     if what == "combo":
